@@ -163,7 +163,7 @@ Reset ==
   /\ nfees' = 0
   /\ opener' = Trace[l].opener
   /\ bad' = "none"
-  /\ ctx' = [type |-> Trace[l].type, dust |-> [A |-> Trace[l].dust.A, B |-> Trace[l].dust.B], thaw |-> Trace[l].thaw]
+  /\ ctx' = [type |-> Trace[l].type, dust |-> [A |-> Trace[l].dust.A, B |-> Trace[l].dust.B], thaw |-> IF "thaw" \in DOMAIN Trace[l] THEN Trace[l].thaw ELSE 0]
 
 \* a constraint rejection of AddHTLC (reserve, fee buffer, max in flight) is not judged: the
 \* state must be unchanged, and the executor ends the behaviour there
